@@ -155,8 +155,14 @@ impl Prop for C20 {
           if l.contains("/verif-mark-begin") { inside = true; b = true; continue; }
           if l.contains("/verif-mark-end") { inside = false; e = true; continue; }
           if !inside || l.contains("+++") || l.contains("--- SIG") { continue; }
-          if l.contains("open") { if l.contains("= -1") { continue; } opens += 1; if !l.contains(&dir) || l.contains("O_WRONLY") || l.contains("O_RDWR") || l.contains("O_CREAT") { bad.push(l.to_string()); } }
-          else { bad.push(l.to_string()); }
+          // every file system call in the window must name a path inside the tree; opens must be read-only; existence checks
+          // (access / faccessat) inside the tree are reads
+          let is_open = l.contains(" open(") || l.contains(" openat(") || l.contains(" creat(");
+          if is_open && l.contains("= -1") { continue; }
+          if is_open { opens += 1; }
+          let inside_tree = l.contains(&dir);
+          let writes = l.contains("O_WRONLY") || l.contains("O_RDWR") || l.contains("O_CREAT") || l.contains(" creat(") || l.contains("unlink") || l.contains("rename") || l.contains("mkdir");
+          if !inside_tree || writes { bad.push(l.to_string()); }
         }
         if !b || !e { Outcome::inconclusive("markers-missing", String::new()) }
         else if !bad.is_empty() { Outcome::violated("foreign-or-writing-syscall", format!("{:?}", bad.iter().take(5).collect::<Vec<_>>())) }
